@@ -1169,8 +1169,9 @@ func (a *ownAnalyzer) exprQuiet(x ast.Expr, st *ownState) ocls {
 func ownPass(w *World, id string) []*OwnOb {
 	var out []*OwnOb
 	var fis []*FuncInfo
+	out = append(out, effectsPass(w, id)...)
 	if id == "C08" {
-		return nil
+		return out
 	}
 	fis = cone(w, id)
 	for _, fi := range fis {
